@@ -140,9 +140,47 @@ def run(name, props, in_repo=False):
     return 0
 
 
+def reverify(names):
+    """Re-confirm kept seeds against /repo's current HEAD (fix: commits may have landed since intake)."""
+    import concurrent.futures
+    names = names or sorted(os.listdir(os.path.join(VERIF, "seeded")))
+
+    def one(name):
+        d = os.path.join(VERIF, "seeded", name)
+        wt = scratch()
+        try:
+            env = clean_env()
+            env["XDG_DATA_HOME"] = os.path.join(wt, ".xdg-data")
+            env["XDG_CONFIG_HOME"] = os.path.join(wt, ".xdg-config")
+            env["XDG_CACHE_HOME"] = os.path.join(wt, ".xdg-cache")
+            rc0, _ = sh(f"{PY} {d}/demo.py", cwd=wt, env=env)
+            rc, out = sh(f"git apply {d}/patch.diff", cwd=wt)
+            if rc != 0:
+                return name, "patch-does-not-apply", {}
+            rc1, out = sh(f"{PY} -m pytest -q -p no:cacheprovider -x", cwd=wt, env=env)
+            m = re.search(r"(\d+) passed", out)
+            passed = int(m.group(1)) if m else 0
+            rc2, _ = sh(f"{PY} {d}/demo.py", cwd=wt, env=env)
+            ok = rc0 == 0 and rc1 == 0 and passed == 156 and rc2 == 1
+            return name, "ok" if ok else "changed", {"demo_unmodified": rc0, "pytest_exit": rc1, "passed": passed, "demo_patched": rc2}
+        finally:
+            drop(wt)
+    head = sh("git -C /repo log --format=%h -1")[1].strip()
+    with concurrent.futures.ThreadPoolExecutor(max_workers=6) as ex:
+        for name, status, detail in ex.map(one, names):
+            mp = os.path.join(VERIF, "seeded", name, "meta.json")
+            meta = json.load(open(mp))
+            meta["reverified"] = {"repo_head": head, "status": status, **detail}
+            json.dump(meta, open(mp, "w"), indent=1)
+            print(name, status, detail)
+    return 0
+
+
 if __name__ == "__main__":
     if sys.argv[1] == "intake":
         sys.exit(intake(sys.argv[2], sys.argv[3], sys.argv[4]))
+    if sys.argv[1] == "reverify":
+        sys.exit(reverify(sys.argv[2:]))
     if sys.argv[1] == "run":
         args = [a for a in sys.argv[2:] if a != "--in-repo"]
         sys.exit(run(args[0], args[1:], in_repo="--in-repo" in sys.argv))
